@@ -1319,9 +1319,16 @@ func (e *enc) assumeGlobalInvariants() {
 		}
 		return
 	}
-	pkg := f.Pkg.Pkg.Name()
 	for _, gi := range e.w.CS.GlobalInvs {
-		if gi.Pkg != pkg {
+		// the package the invariant is about (functions of any package that read its variables rely on it)
+		pkg := gi.Pkg
+		var gpkg *ssa.Package
+		for _, p := range e.w.Prog.AllPackages() {
+			if e.w.InRepo[p] && p.Pkg.Name() == pkg {
+				gpkg = p
+			}
+		}
+		if gpkg == nil {
 			continue
 		}
 		ids := map[string]bool{}
@@ -1329,7 +1336,7 @@ func (e *enc) assumeGlobalInvariants() {
 		uses := false
 		okAll := true
 		for n := range ids {
-			g := f.Pkg.Var(n)
+			g := gpkg.Var(n)
 			if g == nil {
 				continue
 			}
@@ -1356,6 +1363,7 @@ func (e *enc) assumeGlobalInvariants() {
 			continue
 		}
 		env := e.newEnv()
+		env.pkg = pkg
 		env.st = e.entry
 		env.old = e.entry
 		t, err := env.boolTerm(gi.Expr)
